@@ -160,7 +160,19 @@ def main(pid: str, level: str, runner, argv=None):
     ap.add_argument("--replay", default=None)
     a = ap.parse_args(argv)
     seed = int(os.environ.get("VERIF_SEED", "0") or 0)
-    ctx = Ctx(pid, a.tier, seed, level)
+    tier = a.tier
+    if a.replay:
+        # a replay file records the seed and tier of the run that wrote it: the same exploration is repeated
+        # (checks are deterministic given both) and reports the same violation while it persists
+        try:
+            with open(a.replay) as f:
+                rp = json.load(f)
+            seed, tier = int(rp.get("seed", seed)), rp.get("tier", tier)
+            print(f"replaying {a.replay}: key {rp.get('key')} (seed {seed}, tier {tier})", flush=True)
+        except (OSError, ValueError) as e:
+            print(f"MACHINERY-FAILURE property={pid}: cannot read replay file: {e}", flush=True)
+            return 2
+    ctx = Ctx(pid, tier, seed, level)
     ctx.replay_path = a.replay
     try:
         runner(ctx)
